@@ -24,6 +24,8 @@ def Line.ok : Line → Prop
   | .dtstart v => ',' ∉ v
   | _ => True
 
+instance : DecidablePred Line.ok := fun l => by cases l <;> unfold Line.ok <;> infer_instance
+
 /-- what the dispatch loop of `_parse_rfc` does with the line -/
 def Line.collect (acc : Acc) : Line → Acc
   | .rrule v => { acc with rrulevals := acc.rrulevals ++ [v] }
